@@ -60,16 +60,23 @@ def f14_root_cause(matcher, v):
     """Open finding F14: the first mismatching entry c of the path is *stale*: its path predecessor p was improved in place after
     c was computed, and p was not re-expanded because (a) the improving candidate came from a chain of an earlier expansion round
     (it carried delayed < expand_now, which _update_inner copies), or (b) p was re-postponed by pruning right after the improvement
-    and is still waiting for a wider lattice."""
+    and is still waiting for a wider lattice, or (c, only with avoid_goingback) p was re-expanded but the recomputed value is lower
+    than the stale one, which therefore survives update()."""
     k = v.details.get("index")
     lb = matcher.lattice_best
-    if not k or not lb or k >= len(lb) or not (v.details["reported"] < v.details["model"]):
+    if not k or not lb or k >= len(lb):
         return False
     c, p = lb[k], lb[k - 1]
     imp = getattr(p, "t_improved", None)
     if imp is None or not imp["seq"] > getattr(c, "t_seq", 1 << 60):
         return False
-    return imp["cand_delayed"] < imp["round"] or p.delayed > matcher.expand_now
+    if v.details["reported"] < v.details["model"]:
+        # stale-low: computed from the predecessor's old, lower probability and never recomputed
+        return imp["cand_delayed"] < imp["round"] or p.delayed > matcher.expand_now
+    # stale-high: only possible with the second-order term of avoid_goingback. The improvement gave the predecessor another
+    # predecessor, the recomputed candidate now pays a going-back penalty, is lower than the stale value and loses against it
+    # in update(), so the stale value (which belongs to the overwritten history) stays.
+    return bool(matcher.avoid_goingback)
 
 
 def check_case(case, ctx):
